@@ -234,3 +234,19 @@ Proof.
            eapply trans_keep; [exact T | eapply holds_in; eauto | ].
            intros [Q|[]]. subst j. apply NI. right. auto.
 Qed.
+
+(* ---- mk_vals: the caller's buffer of n elements ---- *)
+Lemma mk_vals_ok zs : forall w, wfw w ->
+  exists l w', mk_vals zs w = Ok (l, w') /\ trans w w' [] l [] [] /\ map (val w') l = zs.
+Proof.
+  induction zs as [|z r IH]; intros w W; cbn [mk_vals].
+  - exists [], w. split; [reflexivity|]. split; [apply trans_refl; auto | reflexivity].
+  - destruct (mk_val_ok w z W) as (E & T & V). run E.
+    destruct (IH _ (t_wf _ _ _ _ _ _ T)) as (l' & w' & E' & T' & V').
+    run E'. exists (nxt w :: l'), w'. split; [reflexivity|]. split.
+    + eapply (trans_seq [] [nxt w] [] [] _ _ _ _ _ _ _ _ _ _ _ _ _ _ _ T T'); msolve.
+    + cbn [map]. f_equal; [|exact V'].
+      rewrite <- V. eapply trans_keep; [exact T' | | tauto].
+      apply in_cnt. pose proof (t_ids _ _ _ _ _ _ T (nxt w)) as Q. autorewrite with cntdb in Q.
+      rewrite one_same in Q. lia.
+Qed.
